@@ -798,6 +798,23 @@ func c16RaceWorkload() *verifReport {
 		}(wk)
 	}
 	wg.Wait()
+	// the relying-party endpoints on their own: many clients fetching the discovery document and the key set at the same
+	// moment (what happens when a fleet of services restarts); responses built in shared or pooled buffers show up here
+	{
+		var wg2 sync.WaitGroup
+		for wk := 0; wk < 16; wk++ {
+			wg2.Add(1)
+			go func() {
+				defer wg2.Done()
+				for i := 0; i < 40; i++ {
+					env.Do(verifReq{Method: "GET", Path: "/.well-known/openid-configuration"}.Build())
+					env.Do(verifReq{Method: "GET", Path: "/idp/oauth2/jwks"}.Build())
+					rep.Eval("race-workload|op=idp-documents")
+				}
+			}()
+		}
+		wg2.Wait()
+	}
 	// Okta deployment: password logins (which fill the authenticator's per-user transaction cache) racing second-factor
 	// requests of users whose cached transaction has expired (which evict from it)
 	{
